@@ -31,14 +31,14 @@ impl Doubling {
         Box::new(Doubling {
             min,
             max,
-            current: min,
+            current: std::cmp::min(min, max),
         })
     }
 }
 
 impl RetryStrategy for Doubling {
     fn reset(&mut self) {
-        self.current = self.min;
+        self.current = std::cmp::min(self.min, self.max);
     }
 
     fn after_failed_connect(&mut self) -> Duration {
